@@ -1,4 +1,4 @@
-import Cgm.Driver.OpsXform
+import Cgm.Driver.OpsRaw
 /-!
 # Driver: reads op lines on stdin, prints the model's answer per line.
 -/
@@ -32,6 +32,7 @@ def runLine (line : String) : String :=
   match (line.splitOn " ").filter (· ≠ "") with
   | [] => "bad-line"
   | name :: toks =>
+    if name.startsWith "n." then runRaw (name :: toks) else
     match parseArgs toks with
     | none => "bad-line"
     | some (is, rs) =>
